@@ -78,7 +78,7 @@ def run(prop, tier, replay=None):
             fviol, _, _ = fsrealcheck.run(prop, tier, rng, only=rp["script"])
             replay_fs = fviol
             scripts = []
-        elif rp.get("kind") == "model":
+        elif rp.get("kind") in ("model", "spec-behaviour"):
             scripts = []
         else:
             scripts = [rp["script"]]
@@ -114,6 +114,13 @@ def run(prop, tier, replay=None):
         mc["generated"] += pmc["generated"]
         acc += extra["real_process_accepted"]
         total += extra["real_process_scripts"]
+    if prop == "C02" and not replay:
+        # the other direction: behaviours of the specification (TLC -simulate) replayed on a real Watchexec
+        import workreplay
+        rviol, extra = workreplay.run(prop, tier, rng)
+        violations += rviol
+        acc += extra["spec_behaviours_agreed"]
+        total += extra["spec_behaviours_replayed"]
     if prop == "C01" and not replay:
         # the property's parenthesis "a filesystem change under a watched path": real inotify / poll
         import fsrealcheck
